@@ -739,7 +739,8 @@ class Field(Criterion, JSON):
     def __hash__(self) -> int:
         # Term.__eq__ builds a criterion (always truthy), so fields that hash alike collapse in sets:
         # include the table so that fields_() keeps same-named columns of different tables apart
-        return hash((self.name, getattr(self, "alias", None), self.table))
+        # (a column without a table must not hash like the column of an un-aliased subquery, whose hash is that of None)
+        return hash((self.name, getattr(self, "alias", None), self.table is None, self.table))
 
     def get_sql(self, ctx: SqlContext) -> str:
         field_sql = format_identifier(self.name, ctx.quote_char)
